@@ -13,10 +13,11 @@ Definition contained (m : minfo) (users : list (N * N)) : bool :=
   existsb (fun '(us, usz) => (us <=? m_start m) && (m_start m + m_size m <=? us + usz)) users.
 Definition usable_id (id : bytes) : bool := negb (forallb (N.eqb 0) id).    (* non-empty and not all zero *)
 
-(* what identification finds for a mapped file name: build id (None = none found), SONAME *)
-Record elfinfo := { ei_name : list N; ei_id : option bytes; ei_soname : option (list N) }.
-Definition lookup (tbl : list elfinfo) (nm : list N) : option elfinfo :=
-  find (fun e => EffPath.beq (ei_name e) nm) tbl.
+(* what identification finds for the image mapped from file [ei_name] at file offset [ei_off] (one file can hold
+   several images, e.g. libraries embedded in an archive): build id (None = none found), SONAME *)
+Record elfinfo := { ei_name : list N; ei_off : N; ei_id : option bytes; ei_soname : option (list N) }.
+Definition lookup (tbl : list elfinfo) (nm : list N) (off : N) : option elfinfo :=
+  find (fun e => EffPath.beq (ei_name e) nm && (ei_off e =? off)) tbl.
 
 (* md_mapname: the mapping's own name, from which the version numbers are parsed *)
 Record module := { md_base : N; md_size : N; md_id : bytes; md_name : EffPath.res (list N); md_mapname : list N }.
@@ -36,7 +37,7 @@ Definition target_modules (ms : list minfo) (tbl : list elfinfo) (users : list (
   flat_map (fun m =>
     if interesting m && negb (contained m users) then
       match m_name m with
-      | Some nm => match lookup tbl nm with
+      | Some nm => match lookup tbl nm (m_off m) with
                    | Some e => match ei_id e with
                                | Some id => if usable_id id then [module_of m id (ei_soname e)] else []
                                | None => []
